@@ -9,8 +9,9 @@ import (
 type gen struct {
 	r *vh.Rng
 	// reuse ops (reuse.go): are in-place composite destinations allowed on this page; element count wanted per list column
-	inplace bool
-	count   map[*typeDesc]int
+	inplace     bool
+	shortTuples bool
+	count       map[*typeDesc]int
 }
 
 var identChars = []byte("abcdefghijklmnopqrstuvwxyz_0123456789ABCXYZ")
